@@ -29,6 +29,10 @@ def to_int(v):
     return v
 
 
+def specpy_to_int(v):
+    return to_int(v)
+
+
 class SArr:
     """array as seen by the definition: arr maps BV64 index -> BV64 (ints/bools, widened) or FP"""
     __slots__ = ('name', 'arr', 'fp', 'out')
@@ -95,7 +99,8 @@ class Spec:
         return to_int(x), to_int(y)
 
     def to_fp(self, v, sort=None):
-        sort = sort or self.fp_sort or z3.Float64()
+        if sort is None:
+            sort = self.fp_sort if self.fp_sort is not None else z3.Float64()
         if z3.is_fp(v):
             return v if v.sort() == sort else z3.fpFPToFP(z3.RNE(), v, sort)
         return z3.fpSignedToFP(z3.RNE(), to_int(v), sort)
@@ -186,6 +191,8 @@ class Spec:
         if not isinstance(s.target, ast.Name):
             raise SpecNotExecutable('for target')
         i = s.target.id
+        before = self.env.get(i)
+        last = []          # (guard under which iteration k ran, value)
         for k in range(self.K):
             cur = z3.simplify(lo + k) if k else lo
             if k:
@@ -194,11 +201,19 @@ class Spec:
             ca = self.act(c)
             if z3.is_false(ca):
                 break
-            self.assign_name(i, cur, ca)
+            # inside the body the loop variable is simply `cur`: every statement of the body is guarded by c
+            self.env[i] = cur
+            last.append((ca, cur))
             self.block(s.body, c)
         else:
             self.assume.append(z3.Implies(a, z3.BVAddNoOverflow(lo, bv(self.K), True)))
             self.unwind.append(z3.And(self.act(a), lo + self.K < hi))
+        # after the loop: value of the last iteration that ran (Python keeps it), else the previous binding
+        val = before
+        for ca, cur in last:
+            val = cur if val is None else z3.If(ca, cur, specpy_to_int(val))
+        if val is not None:
+            self.env[i] = val
 
     # ------------------------------------------------------------ expressions
     def tobool(self, v):
@@ -270,7 +285,7 @@ class Spec:
             if isinstance(e.value, int):
                 return bv(e.value)
             if isinstance(e.value, float):
-                return z3.FPVal(e.value, self.fp_sort or z3.Float64())
+                return z3.FPVal(e.value, self.fp_sort if self.fp_sort is not None else z3.Float64())
             raise SpecNotExecutable('constant %r' % (e.value,))
         if isinstance(e, ast.Name):
             if e.id not in self.env:
